@@ -592,9 +592,8 @@ pub fn classify_cyc_mismatch(
     let Outcome::Val(g) = got else { return None };
     let edges = refint::call_edges(prog, inp);
     let (comp, cyc) = refint::sccs(&edges);
-    if !cyc[comp[n]] {
-        return None;
-    }
+    let all_fb = prog.nodes.iter().all(|x| x.kind == Kind::Fb);
+
     // records of the current revision
     let start = log
         .iter()
@@ -613,15 +612,77 @@ pub fn classify_cyc_mismatch(
             _ => false,
         })
     };
-    let all_fb = prog.nodes.iter().all(|x| x.kind == Kind::Fb);
     if all_fb {
-        let refv = refint::fallback_values(prog, inp);
-        let body = refint::eval_with_pub(&prog.nodes[n].body, inp, &refv);
-        let callee_reused = edges[n]
-            .iter()
-            .any(|&m| m != n && comp[m] == comp[n] && !executed_now(m));
-        if body == *g && *g != prog.nodes[n].fb && executed_now(n) && callee_reused {
-            return Some("C13/fallback_participant_reexecuted_outside_cycle");
+        // Members of cyclic SCCs whose most recent completed execution ran *outside* of any cycle
+        // (no member of its SCC was executing, and no cycle was detected during it) although the
+        // call graph of the inputs of that time already had it inside a cyclic SCC.
+        let execs = mon::executions(log);
+        let mut over = std::collections::BTreeMap::new();
+        for m in 0..prog.nodes.len() {
+            if !cyc[comp[m]] {
+                continue;
+            }
+            let Some(e) = execs
+                .iter()
+                .rev()
+                .find(|e| e.act.node as usize == m && e.value.is_some())
+            else {
+                continue;
+            };
+            // inputs at the time of that execution
+            let mut then = refint::Inputs {
+                cells: vec![[0, 0]; prog.ncells],
+                unt: inp.unt.clone(),
+            };
+            for (clk, _, r) in log {
+                if *clk > e.start {
+                    break;
+                }
+                if let Rec::SetField(c, f, v, _) = r {
+                    then.cells[*c as usize][*f as usize] = *v;
+                }
+            }
+            let edges_then = refint::call_edges(prog, &then);
+            let (comp_t, cyc_t) = refint::sccs(&edges_then);
+            if !cyc_t[comp_t[m]] {
+                continue;
+            }
+            // did salsa have any way to see a cycle during this execution?
+            let touches = cycle_touches(log, &execs, &comp_t, comp_t[m]);
+            let cycle_seen = touches[execs.iter().position(|o| o.start == e.start).unwrap()];
+            let served_from_memo = true;
+            // the value salsa actually handed out for m after that execution
+            let mut observed: Option<u16> = None;
+            let mut pending_top: Option<usize> = None;
+            for (clk, _, r) in log {
+                if *clk < e.end {
+                    continue;
+                }
+                match r {
+                    Rec::Read(ReadK::Call(_, c, _), v) if *c as usize == m => observed = Some(*v),
+                    Rec::Call(_, Req::Node(x)) => pending_top = Some(*x),
+                    Rec::Ret(_, Outcome::Val(v)) => {
+                        if pending_top.take() == Some(m) {
+                            observed = Some(*v);
+                        }
+                    }
+                    _ => {}
+                }
+            }
+            if n == m {
+                observed = Some(*g);
+            }
+            if let Some(v) = observed {
+                if served_from_memo && !cycle_seen && v != prog.nodes[m].fb && Some(v) == e.value {
+                    over.insert(m, v);
+                }
+            }
+        }
+        if !over.is_empty() {
+            let alt = refint::fallback_values_with(prog, inp, &over);
+            if alt[n] == *g {
+                return Some("C13/fallback_participant_reexecuted_outside_cycle");
+            }
         }
         return None;
     }
@@ -630,39 +691,8 @@ pub fn classify_cyc_mismatch(
         .iter()
         .all(|x| matches!(x.kind, Kind::Fix | Kind::FixJ));
     if all_fix {
-        let last_exit = log[..start].iter().rev().find_map(|(_, _, r)| match r {
-            Rec::Exit(a, v) if a.node as usize == n => Some(*v),
-            _ => None,
-        });
-        // the member's own last execution and the inputs it read directly
+        let lfp = refint::lfp_kleene(prog, inp, 400)?;
         let execs = mon::executions(&log[..start]);
-        let last = execs.iter().rev().find(|e| e.act.node as usize == n && e.value.is_some());
-        let direct_changed = match last {
-            None => true,
-            Some(e) => {
-                let mut ch = false;
-                for (rk, v) in &e.reads {
-                    if let ReadK::In(c, f) = rk {
-                        if inp.cells[*c as usize][*f as usize] != *v {
-                            ch = true;
-                        }
-                    }
-                }
-                ch
-            }
-        };
-        let nested = refint::cyc_info(prog, inp, n).nested;
-        // the class is about inputs read by *other members of the member's own cycle*: some
-        // input written since the member's last execution must be read by such a member
-        let since = last.map(|e| e.end).unwrap_or(0);
-        let mut written: Vec<(usize, usize)> = Vec::new();
-        for (clk, _, r) in log {
-            if let Rec::SetField(c, f, _, _) = r {
-                if *clk > since {
-                    written.push((*c as usize, *f as usize));
-                }
-            }
-        }
         fn reads_input(e: &Expr, c: usize, f: usize) -> bool {
             match e {
                 Expr::In(a, b) => *a == c && *b == f,
@@ -672,19 +702,160 @@ pub fn classify_cyc_mismatch(
                 _ => false,
             }
         }
-        let via_own_cycle = written.iter().any(|(c, f)| {
-            (0..prog.nodes.len())
-                .any(|m| m != n && comp[m] == comp[n] && reads_input(&prog.nodes[m].body, *c, *f))
-        });
-        if last_exit == Some(*g)
-            && !executed_now(n)
-            && validated_now(n)
-            && !direct_changed
-            && nested
-            && via_own_cycle
-        {
+        // values handed out in the current revision for functions that did not execute in it
+        let nn = prog.nodes.len();
+        let mut served: Vec<Option<u16>> = vec![None; nn];
+        let mut pending_top: Option<usize> = None;
+        for (_, _, r) in cur {
+            match r {
+                Rec::Read(ReadK::Call(_, c, _), v) => served[*c as usize] = Some(*v),
+                Rec::Call(_, Req::Node(x)) => pending_top = Some(*x),
+                Rec::Ret(_, Outcome::Val(v)) => {
+                    if let Some(x) = pending_top.take() {
+                        served[x] = Some(*v);
+                    }
+                }
+                _ => {}
+            }
+        }
+        served[n] = Some(*g);
+        // memo values not handed out in this revision: the value of the last completed execution
+        for x in 0..nn {
+            if served[x].is_none() && validated_now(x) {
+                served[x] = execs
+                    .iter()
+                    .rev()
+                    .find(|e| e.act.node as usize == x && e.value.is_some())
+                    .and_then(|e| e.value);
+            }
+        }
+        let stale: Vec<usize> = (0..nn)
+            .filter(|&x| !executed_now(x) && served[x].is_some_and(|v| v != lfp[x]))
+            .collect();
+        // a stale memo of the described class: an inner cycle head validated green although an
+        // input read (only) by other members of its cycle was written since its last execution
+        let is_root = |m: usize| -> bool {
+            let last = execs.iter().rev().find(|e| e.act.node as usize == m && e.value.is_some());
+            let Some(e) = last else { return false };
+            let direct_changed = e.reads.iter().any(|(rk, v)| match rk {
+                ReadK::In(c, f) => inp.cells[*c as usize][*f as usize] != *v,
+                _ => false,
+            });
+            let mut written: Vec<(usize, usize)> = Vec::new();
+            for (clk, _, r) in log {
+                if let Rec::SetField(c, f, _, _) = r {
+                    if *clk > e.end {
+                        written.push((*c as usize, *f as usize));
+                    }
+                }
+            }
+            // call graph of the inputs the member was last executed with
+            let mut then = refint::Inputs {
+                cells: vec![[0, 0]; prog.ncells],
+                unt: inp.unt.clone(),
+            };
+            for (clk, _, r) in log {
+                if *clk > e.start {
+                    break;
+                }
+                if let Rec::SetField(c, f, v, _) = r {
+                    then.cells[*c as usize][*f as usize] = *v;
+                }
+            }
+            let edges_t = refint::call_edges(prog, &then);
+            let (comp_t, cyc_t) = refint::sccs(&edges_t);
+            // ... read by another member of its cycle or by a function such a member calls
+            let reach_t = refint::reachable(&edges_t, m);
+            let via_own_cycle = written.iter().any(|(c, f)| {
+                reach_t
+                    .iter()
+                    .any(|&o| o != m && reads_input(&prog.nodes[o].body, *c, *f))
+            });
+            cyc_t[comp_t[m]]
+                && validated_now(m)
+                && !direct_changed
+                && refint::cyc_info(prog, &then, m).nested
+                && via_own_cycle
+        };
+        let roots: Vec<usize> = stale.iter().copied().filter(|&m| is_root(m)).collect();
+        let explained = |x: usize| -> bool {
+            let reach = refint::reachable(&edges, x);
+            roots.iter().any(|r| *r == x || reach.contains(r))
+        };
+        if std::env::var("SVH_DUMP").is_ok() {
+            eprintln!("classify C12: n={n} stale={stale:?} roots={roots:?} served={served:?} lfp={lfp:?}");
+        }
+        if !roots.is_empty() && explained(n) && stale.iter().all(|&x| explained(x)) {
             return Some("C12/stale_inner_head_validated_missing_flattened_input");
         }
     }
     None
+}
+
+/// For every reconstructed execution: could salsa observe, during it, that it is part of a cycle?
+/// True if (transitively through nested executions) a cycle_result/cycle_initial call happened
+/// within its span, it read a function that was executing at that moment, or it read the result of
+/// an execution of the same top-level request that itself touched a cycle (a provisional memo).
+/// Reads served from memos of earlier requests / revisions do not count. Only members of the
+/// strongly connected component `scc` are considered.
+pub fn cycle_touches(log: &[Stamped], execs: &[mon::Exec], comp: &[usize], scc: usize) -> Vec<bool> {
+    // top-level request number per clock
+    let mut req_starts: Vec<u64> = Vec::new();
+    for (clk, _, r) in log {
+        if matches!(r, Rec::Call(..)) {
+            req_starts.push(*clk);
+        }
+    }
+    let req_of = |t: u64| req_starts.partition_point(|s| *s <= t);
+    let cyc_clocks: Vec<u64> = log
+        .iter()
+        .filter(|(_, _, r)| matches!(r, Rec::CycleInitial(x) if comp[*x] == scc))
+        .map(|(c, _, _)| *c)
+        .collect();
+    let mut order: Vec<usize> = (0..execs.len()).collect();
+    order.sort_by_key(|&i| if execs[i].end == 0 { u64::MAX } else { execs[i].end });
+    let mut touches = vec![false; execs.len()];
+    for &i in &order {
+        let x = &execs[i];
+        let end = if x.end == 0 { u64::MAX } else { x.end };
+        let mut t = cyc_clocks.iter().any(|c| *c > x.start && *c < end);
+        if !t {
+            // nested executions
+            t = execs
+                .iter()
+                .enumerate()
+                .any(|(j, y)| j != i && y.start > x.start && y.end != 0 && y.end < end && touches[j]);
+        }
+        if !t {
+            for (clk, it) in &x.items {
+                if let mon::Item::Read(ReadK::Call(_, c, _), _) = it {
+                    let c = *c as usize;
+                    if comp[c] != scc {
+                        continue;
+                    }
+                    let active = execs.iter().any(|o| {
+                        o.act.node as usize == c && o.start < *clk && (o.end == 0 || o.end > *clk)
+                    });
+                    if active {
+                        t = true;
+                        break;
+                    }
+                    // latest completed execution of c before the read
+                    if let Some((j, y)) = execs
+                        .iter()
+                        .enumerate()
+                        .filter(|(_, y)| y.act.node as usize == c && y.end != 0 && y.end < *clk)
+                        .max_by_key(|(_, y)| y.end)
+                    {
+                        if touches[j] && req_of(y.start) == req_of(*clk) {
+                            t = true;
+                            break;
+                        }
+                    }
+                }
+            }
+        }
+        touches[i] = t;
+    }
+    touches
 }
